@@ -1,7 +1,7 @@
 """Shared black-box layer for C01 (no crash), C02 (no hang), C04 (editor query modes)."""
 import os
 import collections
-from . import common, blackbox, lexgen
+from . import common, blackbox, lexgen, progs
 
 MUT_TOKENS = ["end", "def", "(", ")", "[", "]", "{", "}", "|", ",", ".", "=", "do", "if", "class", "module", "nil", "1", "'s'", "x",
               ":a", "a:", "&.", "*", "**", "&", "::", "?", ":", "\n", "return", "self", "@a", "A", "<", ">", "case", "in", "when",
@@ -57,6 +57,12 @@ def gen_texts(ctx, n):
     return out, dict(kinds)
 
 
+def gen_programs(ctx, n, rich=True):
+    """Grammar-generated, mostly valid programs over the configured builtin classes (levels 2-4)."""
+    cfgdir = os.path.join(common.REPO, "test", ".ti-config")
+    return [progs.gen_program(ctx.rng, cfgdir, level=ctx.rng.choice([2, 3, 4]), rich=rich) for _ in range(n)]
+
+
 def match_finding(findings, kind, site_key):
     for f in findings:
         if f.get("status", "open") != "open":
@@ -87,7 +93,9 @@ def sweep(ctx, texts, flagsets, want, layer, line_check=None):
             res = ("panic", fn + " | " + msg, loc, se[-1500:])
         elif c in ("hang", "hard-timeout") and "hang" in want:
             inner, owner = blackbox.hang_site(ctx.ti, [name] + fl, wd)
-            res = ("hang", owner, inner, so[-300:])
+            # a hang is keyed by the spinning function when that is a base/ helper, else by the evaluator that owns the loop
+            site = inner if inner.startswith("ti/base.") else owner
+            res = ("hang", site, inner, so[-300:])
         elif c.startswith("exit-") and "exit" in want:
             res = ("exit", c, "", (so + se)[-500:])
         elif c == "ok" and "lines" in want:
